@@ -265,6 +265,7 @@ func Do(cfg *config.Config, req Req) error {
 		if err != nil {
 			return err
 		}
+		defer closeReader(r)
 		_, err = io.Copy(io.Discard, r)
 		return err
 	case "sign", "transform-sign":
@@ -286,6 +287,8 @@ func Do(cfg *config.Config, req Req) error {
 			if body, err = tr.GetReader(); err != nil {
 				return err
 			}
+			// as the HTTP client does with a request body: closing it releases the producer
+			defer closeReader(body)
 		}
 		keyName := "rsa2048a"
 		kc, _ := cfg.GetKey(keyName)
@@ -302,4 +305,10 @@ func Do(cfg *config.Config, req Req) error {
 		return err
 	}
 	return fmt.Errorf("unknown entry %q", req.Entry)
+}
+
+func closeReader(r io.Reader) {
+	if c, ok := r.(io.Closer); ok {
+		c.Close()
+	}
 }
